@@ -97,7 +97,9 @@ class Highlighter(object):
 
             if token_type == tokenize.ENDMARKER:
                 # End of source
-                line += "<{}>{}</>".format(self._theme[current_type], buffer)
+                if current_type is not None:
+                    line += "<{}>{}</>".format(self._theme[current_type], buffer)
+
                 lines.append(line)
                 break
 
@@ -296,6 +298,10 @@ class ExceptionTrace(object):
             True,
         )
 
+        if not frame.file_content:
+            # The source is not available (exec'd code, removed file)
+            return
+
         code_lines = Highlighter(supports_utf8=io.supports_utf8()).code_snippet(
             frame.file_content, frame.lineno, 4, 4
         )
@@ -388,7 +394,7 @@ class ExceptionTrace(object):
                         True,
                     )
 
-                    if io.is_debug():
+                    if io.is_debug() and frame.file_content:
                         if (frame, 2, 2) not in self._FRAME_SNIPPET_CACHE:
                             code_lines = Highlighter(
                                 supports_utf8=io.supports_utf8()
